@@ -586,6 +586,8 @@ def post_token_assignments(lTokens):
                 lParenId.append(iParenId)
                 oToken.iId = iParenId
             elif sValue == ")":
+                if len(lParenId) == 0:
+                    utils.print_error_message("matching (", parser.close_parenthesis, iToken, lTokens)
                 oToken.iId = lParenId.pop()
 
 
